@@ -16,9 +16,9 @@ mkdir -p /tmp/seed_aside && mv tests/seeded_demo.rs /tmp/seed_aside/$name.rs
 s1=$(cargo test --workspace --no-fail-fast --offline 2>&1 | grep -E "^test result" | tr '\n' ' ')
 s2=$(cargo test --offline --features async-vfs,embedded-fs 2>&1 | grep -E "^test result" | tr '\n' ' ')
 mv /tmp/seed_aside/$name.rs tests/seeded_demo.rs
-d1=$(cargo test --offline --features async-vfs,embedded-fs --test seeded_demo 2>&1 | grep -E "^test result" | tr '\n' ' ')
+d1=$(cargo test --offline --features async-vfs,embedded-fs,verif-hooks --test seeded_demo 2>&1 | grep -E "^test result" | tr '\n' ' ')
 git stash push -q -- src Cargo.toml
-d2=$(cargo test --offline --features async-vfs,embedded-fs --test seeded_demo 2>&1 | grep -E "^test result" | tr '\n' ' ')
+d2=$(cargo test --offline --features async-vfs,embedded-fs,verif-hooks --test seeded_demo 2>&1 | grep -E "^test result" | tr '\n' ' ')
 git stash pop -q
 python3 - "$out" "$id" "$s1" "$s2" "$d1" "$d2" <<'PY'
 import json,sys,os
@@ -29,7 +29,7 @@ except Exception: pass
 ok = ('FAILED' not in s1 and 'ok.' in s1 and 'FAILED' not in s2 and 'ok.' in s2 and 'FAILED' in d1 and 'FAILED' not in d2 and 'ok.' in d2)
 meta={"property":id,"breaks":agent.get("summary"),"needs":agent.get("needs"),
  "verified_here":{"suite_default_with_change":s1,"suite_all_features_with_change":s2,"demo_with_change":d1,"demo_without_change":d2,"confirmed":ok},
- "commands":["cargo test --workspace --no-fail-fast --offline","cargo test --offline --features async-vfs,embedded-fs","cargo test --offline --features async-vfs,embedded-fs --test seeded_demo (with and without the change)"],
+ "commands":["cargo test --workspace --no-fail-fast --offline","cargo test --offline --features async-vfs,embedded-fs","cargo test --offline --features async-vfs,embedded-fs,verif-hooks --test seeded_demo (with and without the change)"],
  "written_by":"independent sub-agent that saw only the property text and a scratch worktree"}
 json.dump(meta,open(os.path.join(out,'meta.json'),'w'),indent=1)
 os.path.exists(os.path.join(out,'agent_meta.json')) and os.remove(os.path.join(out,'agent_meta.json'))
